@@ -48,6 +48,9 @@ Definition chunkify (n : nat) (xs : list Z) : list chunk :=
 (* ---- control script *)
 Inductive cmd :=
 | CPlay (csize : nat) (samples : list Z)   (* manager.play(samples, chunk_size*channels = csize) *)
+| CPlayBad (csize : nat) (samples : list Z) (k : nat)
+    (* the same, but the chunk generator raises when asked for chunk number k (an iterable that
+       raises, or struct.pack rejecting the float padval of an integer format): k chunks are produced *)
 | CPause (t : nat)                         (* t-th created player: thread.pause() *)
 | CResume (t : nat)                        (* thread.play() *)
 | CStop (t : nat)                          (* thread.stop() *)
@@ -82,7 +85,8 @@ Record player := mkP {
   pgo : bool;               (* thread.go *)
   phalting : bool;          (* thread.halting *)
   popen : bool;             (* the device stream is open (member of PyAudio._streams) *)
-  pafter : nat              (* ghost: chunks written while thread.halting was already true *)
+  pafter : nat;             (* ghost: chunks written while thread.halting was already true *)
+  pcrash : bool             (* the chunk generator raises once prem is exhausted *)
 }.
 
 Inductive ctl := KPause | KResume | KStop
@@ -90,7 +94,7 @@ Inductive ctl := KPause | KResume | KStop
 
 (* ---- main thread program counter *)
 Inductive mpc :=
-| MPlayAcq (a : list chunk)  (* play: with self.lock: *)
+| MPlayAcq (a : list chunk) (cr : bool)  (* play: with self.lock: *)
 | MPlayRaiseRel              (*   finished: raise ThreadError -> release self.lock *)
 | MPlayGoSet (p : nat)       (*   AudioThread.__init__: self.go.set() *)
 | MPlayHaltInit (p : nat)    (*     self.halting = False *)
@@ -152,13 +156,13 @@ Definition set_mpc s v := mkS (swait s) (sfinished s) (shlock s) (smlock s) (sth
 Definition set_script s v := mkS (swait s) (sfinished s) (shlock s) (smlock s) (sthreads s) (sstarted s) (sterminated s) (splayers s) (smpc s) v (strace s).
 Definition emit s e := mkS (swait s) (sfinished s) (shlock s) (smlock s) (sthreads s) (sstarted s) (sterminated s) (splayers s) (smpc s) (sscript s) (e :: strace s).
 
-Definition p_set_pc p v := mkP v (paudio p) (prem p) (pwritten p) (ptlock p) (pgo p) (phalting p) (popen p) (pafter p).
-Definition p_set_tlock p v := mkP (ppc_ p) (paudio p) (prem p) (pwritten p) v (pgo p) (phalting p) (popen p) (pafter p).
-Definition p_set_go p v := mkP (ppc_ p) (paudio p) (prem p) (pwritten p) (ptlock p) v (phalting p) (popen p) (pafter p).
-Definition p_set_halting p v := mkP (ppc_ p) (paudio p) (prem p) (pwritten p) (ptlock p) (pgo p) v (popen p) (pafter p).
-Definition p_set_open p v := mkP (ppc_ p) (paudio p) (prem p) (pwritten p) (ptlock p) (pgo p) (phalting p) v (pafter p).
+Definition p_set_pc p v := mkP v (paudio p) (prem p) (pwritten p) (ptlock p) (pgo p) (phalting p) (popen p) (pafter p) (pcrash p).
+Definition p_set_tlock p v := mkP (ppc_ p) (paudio p) (prem p) (pwritten p) v (pgo p) (phalting p) (popen p) (pafter p) (pcrash p).
+Definition p_set_go p v := mkP (ppc_ p) (paudio p) (prem p) (pwritten p) (ptlock p) v (phalting p) (popen p) (pafter p) (pcrash p).
+Definition p_set_halting p v := mkP (ppc_ p) (paudio p) (prem p) (pwritten p) (ptlock p) (pgo p) v (popen p) (pafter p) (pcrash p).
+Definition p_set_open p v := mkP (ppc_ p) (paudio p) (prem p) (pwritten p) (ptlock p) (pgo p) (phalting p) v (pafter p) (pcrash p).
 Definition p_write p c r := mkP (ppc_ p) (paudio p) r (pwritten p ++ [c]) (ptlock p) (pgo p) (phalting p) (popen p)
-  (if phalting p then S (pafter p) else pafter p).
+  (if phalting p then S (pafter p) else pafter p) (pcrash p).
 
 Fixpoint upd {A} (i : nat) (f : A -> A) (l : list A) : list A :=
   match l, i with
@@ -178,20 +182,28 @@ Fixpoint mem (x : nat) (l : list nat) : bool :=
   match l with [] => false | y :: r => Nat.eqb x y || mem x r end.
 
 (* a freshly constructed AudioThread: Lock() free, Event() clear, nothing written, no stream yet *)
-Definition new_player (a : list chunk) : player := mkP PNew a a [] None false false false 0.
+Definition new_player (a : list chunk) (cr : bool) : player := mkP PNew a a [] None false false false 0 cr.
 
 Definition p_alive (p : player) : bool :=
   match ppc_ p with PNew | PDone => false | _ => true end.
 
-(* where the for loop over chunks() goes next: another chunk, or the epilogue *)
-Definition loop_pc (p : player) : ppc := match prem p with [] => PEpiAcq | _ => PWrite end.
+(* where a player goes when the chunk generator raises: run() is left by the exception, WITHOUT the
+   epilogue (the thread is dead, still in manager._threads, its stream still open) *)
+Definition crash_pc : ppc := PDone.
+(* where the for loop over chunks() goes next: another chunk, the epilogue, or the exception *)
+Definition loop_pc (p : player) : ppc :=
+  match prem p with
+  | [] => if pcrash p then crash_pc else PEpiAcq
+  | _ => PWrite
+  end.
 
 (* ---- the main thread picks its next command; commands on players that do not exist are skipped
    by the harness driver and here alike *)
 Fixpoint fetch (np : nat) (sc : list cmd) : mpc * list cmd :=
   match sc with
   | [] => (MDone, [])
-  | CPlay n xs :: r => (MPlayAcq (chunkify n xs), r)
+  | CPlay n xs :: r => (MPlayAcq (chunkify n xs) false, r)
+  | CPlayBad n xs k :: r => (MPlayAcq (firstn k (chunkify n xs)) true, r)
   | CPause t :: r => if t <? np then (MCtlAcq KPause t, r) else fetch np r
   | CResume t :: r => if t <? np then (MCtlAcq KResume t, r) else fetch np r
   | CStop t :: r => if t <? np then (MCtlAcq KStop t, r) else fetch np r
@@ -218,14 +230,14 @@ Definition acquire_t (s : state) (t : nat) (k : state -> state) : option state :
 
 Definition step_main (s : state) : option state :=
   match smpc s with
-  | MPlayAcq a =>
+  | MPlayAcq a cr =>
       match smlock s with
       | Some _ => None
       | None =>
           let s1 := set_mlock s (Some 0) in
           if sfinished s1 then Some (set_mpc s1 MPlayRaiseRel)
           else let p := length (splayers s1) in
-               Some (set_mpc (set_players s1 (splayers s1 ++ [new_player a])) (MPlayGoSet p))
+               Some (set_mpc (set_players s1 (splayers s1 ++ [new_player a cr])) (MPlayGoSet p))
       end
   | MPlayRaiseRel => Some (next_cmd (emit (set_mlock s None) EPlayRaise))
   | MPlayGoSet p => Some (set_mpc (upd_player s p (fun q => p_set_go q true)) (MPlayHaltInit p))
